@@ -8,6 +8,22 @@ import json, os, re, shutil, sys
 VERIF = os.path.dirname(os.path.dirname(os.path.abspath(__file__)))
 RES = sys.argv[1] if len(sys.argv) > 1 else "/tmp/mut/results"
 ALL = [f"C{i:02d}" for i in range(1, 19)]
+# seeded changes the property's own check missed at their first evaluation, and what was strengthened (DESIGN §12)
+MISSED_FIRST = {
+    "C06-1": "TAB aliasing ')' via `| 0x20`: single-byte mutations now use every ASCII byte",
+    "C14-2": "write_char truncation: fragment strata with characters above U+00FF delivered through write_char",
+    "C03-3": "special values: text -> bits -> text for NaN payloads of every length (g_specials in C03)",
+    "C09-2": "NaN payload patterns through the round trip; C09 tag on special-value round trips",
+    "C11-1": "small coefficients x exponents near the target's digit count",
+    "C18-1": "the limits themselves through a text round trip",
+    "C18-2": "maximal-length numerals through try_parse; required text capacity rule (C04) in the streaming oracle",
+    "C18-3": "release-only demonstration: eval_mutants retries the demo with --release",
+    "C06r2-1": "non-ASCII characters whose low byte is a token byte, through write_char (g_nonascii_chars); streaming complaints count for the bracketed property",
+    "C09r2-2": "special-value numerals through the streaming entry point as well (put_special)",
+    "C14r2-2": "the string entry point is run on every fragmented text too (frag-str)",
+    "C18r2-2": "limit numerals in every exponent spelling (e+, E, leading zeros) through both entry points; C18 owns parse complaints on its plan",
+    "C12r2-1": "double rounding, 2 of 2^32 f32 patterns: only the exhaustive from_f32 -> to_f32 sweep of the thorough tier finds it",
+}
 
 
 def summary_of(notes):
@@ -24,7 +40,7 @@ def main():
         m = json.load(open(os.path.join(RES, fn)))
         name = m["name"]
         src = m["source"]
-        prop = name.split("-")[0]
+        prop = name[:3]
         if not m.get("confirmed"):
             rows.append((name, prop, False, [], []))
             continue
@@ -54,6 +70,7 @@ def main():
                        "properties with VERIF_REPO pointing at the patched worktree; worktree and build output removed afterwards",
             },
             "own_property_check_detects": prop in det_spec or prop in det_corr,
+            "missed_at_first_evaluation_then_strengthened": MISSED_FIRST.get(name),
             "detected_with_failing_input_by": det_spec,
             "detected_as_broken_correspondence_only_by": det_corr,
             "not_detected_by": [c for c in ALL if c in checks and checks[c]["rc"] == 0],
